@@ -51,19 +51,19 @@ def unhexTok (t : String) : Option (List Char) :=
 mutual
 def parseVal : Nat → List String → Option (TVal × List String)
   | 0, _ => none
-  | fuel + 1, "i" :: ty :: v :: r => do
+  | _ + 1, "i" :: ty :: v :: r => do
     let T ← parseTy ty
     let x ← v.toInt?
     pure (.scalar (.int T x), r)
-  | fuel + 1, "b" :: b :: r => do
+  | _ + 1, "b" :: b :: r => do
     let x ← parseBool b
     pure (.scalar (.bool x), r)
-  | fuel + 1, "e" :: n :: ty :: v :: r => do
+  | _ + 1, "e" :: n :: ty :: v :: r => do
     let T ← parseTy ty
     let x ← v.toInt?
     let name ← (if n == "-" then some none else (unhex n.toList).map some)
     pure (.scalar (.enumV name T x), r)
-  | fuel + 1, "f" :: t :: r => do
+  | _ + 1, "f" :: t :: r => do
     let x ← unhex t.toList
     pure (.scalar (.float x), r)
   | fuel + 1, "a" :: asc :: n :: r => do
